@@ -188,6 +188,9 @@ func r053(c *Ctx, rule string) {
 		}
 		nHit++
 		f, binding, ok := fieldLoad(v)
+		if ok {
+			binding = nonNilSource(resolve(binding)) // (found by a helper that returns nil for "none")
+		}
 		if !ok || f != svcF {
 			c.ob(rule, "CheckAvailability/returns-conflicting-owner", ret.Pos(), false, true, "the non-nil result must be binding.service")
 			continue
@@ -206,7 +209,11 @@ func r053(c *Ctx, rule string) {
 		// conditions: prefix equality with every element of options.PathPrefixes, and name inequality; nothing else
 		var sawPrefixEq, sawNameNeq bool
 		extra := 0
-		for _, ce := range condsOtherThanEmptiness(condsOtherThanLoop(rc.conds)) {
+		// (a position found by a search: the conditions under which it was found belong here too)
+		for _, ce := range condsOtherThanEmptiness(condsOtherThanLoop(append(append([]condEdge{}, rc.conds...), indexEdgeConds(binding)...))) {
+			if _, isPhi := ce.cond.(*ssa.Phi); isPhi {
+				continue // a merged boolean: its operands are listed as well
+			}
 			cm, ok := ce.asCmp()
 			if !ok {
 				extra++
@@ -218,11 +225,11 @@ func r053(c *Ctx, rule string) {
 			}
 			isBindingPrefix := func(v ssa.Value) bool {
 				f, b, ok := fieldLoad(v)
-				return ok && f == ppF && b == binding
+				return ok && f == ppF && sameElem(b, binding)
 			}
 			isOwnerName := func(v ssa.Value) bool {
 				chain, b := fieldPath(v)
-				return len(chain) == 2 && chain[0] == svcF && chain[1] == nameF && b == binding
+				return len(chain) == 2 && chain[0] == svcF && chain[1] == nameF && sameElem(b, binding)
 			}
 			switch {
 			case cm.op == token.EQL && ((isElemPrefix(cm.x) && isBindingPrefix(cm.y)) || (isElemPrefix(cm.y) && isBindingPrefix(cm.x))):
